@@ -121,7 +121,7 @@ Definition resp_header_step (cfg : hcfg) (noHTTP11 : bool) (st : rsst) (k v : by
                  Ok (StOk (if Z.eqb (p_cl st) (-1) then st else pset_cl st n v))
              end
       else if cic key strConnection then
-        if beq v strClose then Ok (StOk (pset_close st true))
+        if hasHeaderValue v strClose then Ok (StOk (pset_close st true))
         else Ok (StOk (pset_hh (pset_close st false) (appendArg (p_hh st) key v)))
       else other
     else if N.eqb c0 (ch "s") then
